@@ -482,7 +482,9 @@ Spec == Init /\ [][Next]_vars
 \* store whose history contains only dvc-data operations
 \* (a store that was not closed when the history began is marked Unclosed(s) in `opened`: nothing is demanded of it, but -
 \* unlike a tampered source - it does not excuse the destination of a closed request)
-C04_Closed == dev = {} => \A s \in Stores : (s \notin opened /\ Unclosed(s) \notin opened) => Closed(store, s)
+\* (F5 is about what a transfer REPORTS - the directory it skips is withheld all the same: it excuses nothing here)
+StoreDev(d) == d \ {"F5"}
+C04_Closed == StoreDev(dev) = {} => \A s \in Stores : (s \notin opened /\ Unclosed(s) \notin opened) => Closed(store, s)
 C04_ClosedRaw == \A s \in Stores : (s \notin opened /\ Unclosed(s) \notin opened) => Closed(store, s)
 \* at the end of a transfer: a directory one of whose files failed is withheld and reported
 C04_Withheld(L, fl, okd, S, dst) ==
